@@ -243,6 +243,17 @@ class C12(core.Check):
             pre = [{"op": "validate", "doc": vid, "p": False, "version": vver} for _ in range(3)]
             ops[0:0] = pre
             reuse["validator"] = True
+        if k.random() < 0.25:
+            # motif: a syntax error on a reused comment-keeping Parser, then a comment-rich document on the same Parser
+            bid, cid = f"d{len(docs)}", f"d{len(docs) + 1}"
+            good = self.gen.document(r, r.choice(["map", "layer", "class"]), comments=0.9)
+            docs[bid] = workload.break_text(r, self.gen.document(r, "layer", comments=0.5))
+            docs[cid] = good
+            e_ = r.random() < 0.5
+            pre = [{"op": "load", "doc": x_, "e": e_, "c": True, "p": r.random() < 0.3, "via": "parse"} for x_ in (bid, cid, bid, cid)[: r.choice([2, 4])]]
+            at = r.randint(0, len(ops))
+            ops[at:at] = pre
+            reuse["parser"] = True
         if k.random() < 0.2:
             # motif: one call asks the reused Validator to annotate its argument (add_comments=True); the following
             # ordinary calls on invalid documents must leave theirs alone again
@@ -367,6 +378,19 @@ class C12(core.Check):
                 sched["budgets"] = k.choice([[1, 1, 2, 3], [1, 2, 3, 5, 8, 13], [5, 20, 80]])
             else:
                 sched["fine_steps"] = k.choice([100, 400, 2000])
+        elif k.random() < 0.15:
+            # motif: the first thing every thread does is validate against ONE version nobody has asked for yet in this
+            # process - whatever is built lazily on first use (schema expansion, version filtering) is built under
+            # contention, pre-empted at its file reads or line by line
+            v_ = k.choice(VERSIONS[1:])
+            for t, calls in enumerate(threads):
+                first = [{"fn": "validate", "d": 0 if r.random() < 0.7 else r.randrange(len(ids)), "version": v_} for _ in range(k.choice([1, 1, 2]))]
+                threads[t] = first + calls[: k.choice([0, 0, 1])]
+            sched = {"kind": k.choice(["io_sync", "io_sync", "random", "entry_sync"]), "seed": s("schedule").randrange(1 << 30)}
+            if sched["kind"] == "random":
+                sched["budgets"] = k.choice([[1, 2, 3, 5, 8, 13, 50, 200, 1000], [5, 20, 80], [50, 200, 1000, 5000]])
+            if sched["kind"] == "entry_sync":
+                sched["fine_steps"] = k.choice([100, 400])
         fl = []
         if k.random() < 0.2:
             f = s("faults")
